@@ -22,17 +22,25 @@ CONSTANTS Vals,      \* set of value records [k, v, ord, isnum]
           Ops,       \* subset of {"auto", "num", "str"}
           Tol,       \* tolerance of numeric equality, in 1e-5 units
           MaxRows,   \* rows per table
-          NKeys      \* 1 or 2 sort keys
+          NKeys,     \* 1 or 2 sort keys
+          RankByLooks \* FALSE: a string ranks as a number iff it converts to a float (documented, sortcommand.go getRank);
+                      \* TRUE: iff it merely looks numeric (`nl`) - the class of slip that leaves IPs / dates unordered:
+                      \* compareValues then cannot convert the value and answers GREATER / LESS without the asc/desc flip
 
-Num(v, ord) == [k |-> "n", v |-> v, ord |-> ord, isnum |-> TRUE]
-Str(ord) == [k |-> "s", v |-> 0, ord |-> ord, isnum |-> FALSE]
-NumStr(ord, v) == [k |-> "s", v |-> v, ord |-> ord, isnum |-> TRUE]
-Null == [k |-> "z", v |-> 0, ord |-> 0, isnum |-> FALSE]
+(* value classes.  `isnum`: the value converts to a float (a number, or a string strconv.ParseFloat accepts).
+   `nl` ("numeric-looking"): a string made only of 0-9 . - + e E with at least one digit - what the cheap test
+   utils.MightBeFloat accepts.  NumLike strings are nl but NOT isnum: IPv4 addresses, ISO dates, version
+   numbers ("10.0.0.7", "2024-01-17", "1-2").  They are ordinary strings for the documented order. *)
+Num(v, ord) == [k |-> "n", v |-> v, ord |-> ord, isnum |-> TRUE, nl |-> TRUE]
+Str(ord) == [k |-> "s", v |-> 0, ord |-> ord, isnum |-> FALSE, nl |-> FALSE]
+NumStr(ord, v) == [k |-> "s", v |-> v, ord |-> ord, isnum |-> TRUE, nl |-> TRUE]
+NumLike(ord) == [k |-> "s", v |-> 0, ord |-> ord, isnum |-> FALSE, nl |-> TRUE]
+Null == [k |-> "z", v |-> 0, ord |-> 0, isnum |-> FALSE, nl |-> FALSE]
 
 Abs(x) == IF x < 0 THEN -x ELSE x
 Rank(x, op) == IF x.k = "z" THEN 3
                ELSE IF x.k = "n" THEN (IF op = "str" THEN 2 ELSE 1)
-               ELSE IF op # "str" /\ x.isnum THEN 1 ELSE 2
+               ELSE IF op # "str" /\ (IF RankByLooks THEN x.nl ELSE x.isnum) THEN 1 ELSE 2
 NumCmp(a, b) == IF Abs(a - b) < Tol THEN "EQ" ELSE IF a < b THEN "LT" ELSE IF a > b THEN "GT" ELSE "EQ"
 Flip(c) == IF c = "LT" THEN "GT" ELSE IF c = "GT" THEN "LT" ELSE c
 (* compareValues(a, b, asc, op) *)
@@ -42,6 +50,8 @@ Cmp(a, b, asc, op) ==
    IN IF ra = 3 /\ rb = 3 THEN "EQ"
       ELSE IF ra = 3 THEN "GT"
       ELSE IF rb = 3 THEN "LT"
+      ELSE IF ra = 1 /\ rb = 1 /\ ~a.isnum THEN "GT"     \* GetFloatValueIfPossible(A) fails (only reachable with RankByLooks)
+      ELSE IF ra = 1 /\ rb = 1 /\ ~b.isnum THEN "LT"
       ELSE LET c == IF ra < rb THEN "LT" ELSE IF ra > rb THEN "GT"
                     ELSE IF ra = 1 THEN NumCmp(a.v, b.v)
                     ELSE IF a.ord < b.ord THEN "LT" ELSE IF a.ord > b.ord THEN "GT" ELSE "EQ"
@@ -83,6 +93,12 @@ StrictWeakOrder == Irreflexive /\ Asymmetric /\ Transitive /\ EquivTransitive
 (* documented rank: every number before every non-numeric string before every null, ascending or descending *)
 RankOrder == \A a, b \in Vals, o \in Ops, asc \in BOOLEAN :
                 Rank(a, o) < Rank(b, o) => (IF Rank(b, o) = 3 \/ asc THEN Cmp(a, b, asc, o) = "LT" ELSE Cmp(a, b, asc, o) = "GT")
+(* strings that do not convert to a float (words and numeric-LOOKING strings alike) are ordered by byte order,
+   ascending or descending - IPs, dates and version numbers are ordered against each other *)
+IsStrRank(x, o) == x.k = "s" /\ ~(o # "str" /\ x.isnum)
+StringOrder == \A a, b \in Vals, o \in Ops :
+                  (IsStrRank(a, o) /\ IsStrRank(b, o) /\ a.ord < b.ord) =>
+                     (Cmp(a, b, TRUE, o) = "LT" /\ Cmp(b, a, TRUE, o) = "GT" /\ Cmp(a, b, FALSE, o) = "GT" /\ Cmp(b, a, FALSE, o) = "LT")
 (* per table: a sorted permutation exists, and adjacent-sorted = totally sorted *)
 SortExists == pc = "rows" => SortedPerms(tbl, spec) # {}
 AdjacentIsTotal == pc = "rows" => \A p \in SortedPerms(tbl, spec) : TotallySorted(tbl, spec, p)
